@@ -63,8 +63,20 @@ InsertC(s) == IF s = <<>> THEN <<>>
               ELSE IF Head(s)[1] = "A" THEN <<Head(s), <<"C", Head(s)[2]>>>> \o InsertC(Tail(s))
               ELSE <<Head(s)>> \o InsertC(Tail(s))
 
+(* I-layer: the index loop of the code                                                        *)
+(*     i = 0                                                                                  *)
+(*     while i < len(replacement):                                                            *)
+(*         if replacement[i][0] == 'A': replacement.insert(i+1, 'C' + len_str); i += 1        *)
+(*         i += 1                                                                             *)
+(* the bound is re-read every iteration (the list grows) and the inserted C is stepped over   *)
+RECURSIVE InsLoop(_, _)
+InsLoop(s, i) == IF i > Len(s) THEN s
+                 ELSE IF s[i][1] = "A"
+                        THEN InsLoop(SubSeq(s, 1, i) \o << <<"C", s[i][2]>> >> \o SubSeq(s, i + 1, Len(s)), i + 2)
+                        ELSE InsLoop(s, i + 1)
+
 ReadEOF == /\ phase = "read" /\ cursor > Len(file)
-           /\ out' = [k \in 1..Len(out) |-> [s |-> InsertC(out[k].s), p |-> out[k].p]]
+           /\ out' = [k \in 1..Len(out) |-> [s |-> InsLoop(out[k].s, 1), p |-> out[k].p]]
            /\ phase' = "done"
            /\ UNCHANGED <<file, skip, cursor, total, failed>>
 
